@@ -1267,4 +1267,32 @@ theorem grun_inc : ∀ (evs : List Event) (g : Led) (c : Conn),
     rw [recvEvent_eq] at hg1 hg2
     exact ⟨by rw [i1, hg1, f1]; omega, fun sid hs => by rw [i2 sid hs, hg2, f2 sid hs]; omega⟩
 
+theorem Led.recv_iws_congr (g g' : Led) (f : Frame.Frame) (h : g.iws = g'.iws) : (g.recv f).iws = (g'.recv f).iws := by
+  unfold Led.recv
+  cases f.body with
+  | windowUpdate inc => simp only; split <;> exact h
+  | settings s => simp only; split <;> first | rfl | exact h
+  | _ => exact h
+
+theorem foldl_recv_iws_congr (fs : List Frame.Frame) : ∀ g g' : Led, g.iws = g'.iws →
+    (fs.foldl Led.recv g).iws = (fs.foldl Led.recv g').iws := by
+  induction fs with
+  | nil => intro g g' h; exact h
+  | cons f fs ih => intro g g' h; exact ih _ _ (Led.recv_iws_congr g g' f h)
+
+/-- **the INITIAL_WINDOW_SIZE ledger is the last value among the SETTINGS frames the read loop went through** (the value
+of the handshake if there was none): the fold of `Led.recv` over those frames -/
+theorem grun_iws : ∀ (evs : List Event) (g : Led) (c : Conn),
+    (grun g c evs).1.iws = ((runTaken c evs).foldl Led.recv g).iws := by
+  intro evs
+  induction evs with
+  | nil => intros; rfl
+  | cons e es ih =>
+    intro g c
+    simp only [grun, runTaken, List.foldl_append]
+    rw [ih]
+    apply foldl_recv_iws_congr
+    show (recvEvent g c e).iws = _
+    rw [recvEvent_eq]
+
 end H2.Client
